@@ -56,9 +56,11 @@ class BrokerClientHarness(object):
         self._sigs = set()
         self.policy_calls = []
 
+        self.retry_base = cfg.get("retry_base", 0.5)
+
         def policy(failures):
             self.policy_calls.append(failures)
-            return 0.5 * failures
+            return self.retry_base * failures
 
         self.bc = _KafkaBrokerClient(self.clock, self.net.endpoint_factory, BrokerMetadata(1, "kafka1", 9092),
                                      "clientId", policy)
@@ -201,6 +203,9 @@ class BrokerClientHarness(object):
                 en.append(("bigframe", (1, 0)))
             if "drop" in ops:
                 en.append(("drop", (1, 0)))
+        if self.cfg.get("sync_refuse") and not self.net.sync_refuse and not pend and not self.closed and \
+                sum(1 for a in self.net.attempts if getattr(a, "sync", False)) < self.cfg["sync_refuse"]:
+            en.append(("syncarm", (1, 0)))  # the next connect() fails synchronously
         if "timer" in ops and self.clock.pending():
             en.append(("timer", (0, 1)))
         if not self.closed or self.cfg.get("ops_after_close", True):
@@ -342,7 +347,10 @@ class BrokerClientHarness(object):
         self.net.refuse(a)
         if not self.closed:
             self.consec_failures += 1
-            self.expected_attempt_at = self.clock.seconds() + 0.5 * self.consec_failures
+            self.expected_attempt_at = self.clock.seconds() + self.retry_base * self.consec_failures
+
+    def _do_syncarm(self, arg):
+        self.net.sync_refuse = 1
 
     def _do_frame(self, arg):
         j = int(arg)
@@ -437,9 +445,13 @@ class BrokerClientHarness(object):
                 if abs(t - self.expected_attempt_at) > 1e-9:
                     self.viol("C10", "backoff", "backoff-delay-wrong",
                               "attempt after %d consecutive failures made at t=%.3f, expected t=%.3f "
-                              "(retryPolicy(k)=0.5k; policy was asked %r)" % (
-                                  self.consec_failures, t, self.expected_attempt_at, self.policy_calls))
+                              "(retryPolicy(k)=%sk; policy was asked %r)" % (
+                                  self.consec_failures, t, self.expected_attempt_at, self.retry_base,
+                                  self.policy_calls))
                 self.expected_attempt_at = None
+            if getattr(a, "sync", False) and not self.closed:
+                self.consec_failures += 1
+                self.expected_attempt_at = t + self.retry_base * self.consec_failures
         # one request per connection at most once (answered / earlier written ones never reappear)
         for conn in self.net.conns:
             ids = [struct.unpack_from(">i", f, 4)[0] for f in conn.frames]
@@ -505,7 +517,8 @@ class BrokerClientHarness(object):
                   x.written[-1:] if not x.fired else None) for x in self.insts]
         mon = (insts, self.dups, self.closed, self.close_fired, self.consec_failures,
                None if self.expected_attempt_at is None else round(self.expected_attempt_at - self.clock.seconds(), 9),
-               len(self.net.pending_attempts()), sorted(self._sigs), len(self.net.conns))
+               len(self.net.pending_attempts()), sorted(self._sigs), len(self.net.conns), self.net.sync_refuse,
+               sum(1 for a in self.net.attempts if getattr(a, "sync", False)))
         ignore = [self.net] + list(self.net.conns) + [self.clock] + list(self.net.attempts)
         calls = [(round(c.getTime() - self.clock.seconds(), 9)) for c in self.clock.pending()]
         return fpmod.fingerprint((self.bc, conns, mon, calls), now=self.clock.seconds(), ignore=ignore)
